@@ -30,7 +30,7 @@ FEATURES = [
     "async",
     "control", "initialisers", "anon", "classes", "global_code",
     "long", "oneline", "throws", "return_types", "qualified", "decorators", "docstrings", "multiline_calls",
-    "let_prefix",
+    "let_prefix", "rich_params", "rich_types",
 ]
 DEFAULT_ON = set(FEATURES)
 
@@ -56,6 +56,7 @@ class Func:
     last: Tok = None
     name_tok: Tok = None
     features: tuple = ()
+    qual_prefix: str = ""
 
 
 @dataclass
@@ -66,6 +67,7 @@ class Truth:
     length: int
     depth: int
     parent: object
+    qual_prefix: str = ""   # C++ 'Klass::' written in front of the name; the lexer decides whether it is part of the name token
 
     def as_list(self):
         return [self.name, list(self.start), list(self.end), self.length]
@@ -314,9 +316,30 @@ class Gen:
             groups.insert(r.randint(0, len(groups)), s)
         return groups
 
+    RICH_PARAMS = {
+        "C": ["const char * {v}", "int {v} [ ]", "struct node * {v}", "unsigned long {v}", "void ( * {v} ) ( int )", "char * * {v}"],
+        "C++": ["const std::string & {v}", "std::vector < int > {v}", "int * {v} = nullptr", "Box && {v}", "const char * {v}",
+                "std::map < int , Box > & {v}", "void ( * {v} ) ( int )"],
+        "C#": ["List < int > {v}", "string [ ] {v}", "ref int {v}", "out int {v}", "params object [ ] {v}", "int ? {v} = null",
+               "Dictionary < string , List < int > > {v}", "System.IO.Stream {v}"],
+        "Java": ["List < String > {v}", "String [ ] {v}", "final int {v}", "int ... {v}", "Map < String , List < Integer > > {v}",
+                 "java.util.List < String > {v}", "final java.io.File {v}"],
+        "TypeScript": ["{v} : number [ ]", "{v} : ( a : number ) => void", "{v} : Map < string , number >", "{v} ? : string",
+                       "... {v} : number [ ]", "{v} : string | null = null", "{v} : Array < { id : number } >"],
+        "JavaScript": ["... {v}", "[ {v} , other ]", "{v} = [ 1 , 2 ]", "{v} = null", "{v} = ( 1 + 2 )"],
+        "Python": ["* {v}", "** {v}", "{v} : list [ int ] = None", "{v} : \"str\" = \"x\"", "{v} : dict [ str , tuple [ int , int ] ] = { }",
+                   "{v} = ( 1 , ( 2 , 3 ) )"],
+    }
+
     def one_param(self, o, i):
         r = self.rng
         v = "p" + str(i) + r.choice("abc")
+        if "rich_params" in self.F and r.random() < 0.3:
+            self.use("rich_params")
+            shapes = self.RICH_PARAMS[self.lang]
+            if self.lang in ("JavaScript", "TypeScript", "Python", "Java", "C#") and i != 9:
+                shapes = [s for s in shapes if not s.startswith(("...", "* ", "** ", "params")) and "..." not in s] or shapes
+            return self.words(r.choice(shapes).replace("{v}", v), o)
         if self.typed:
             return [self.T(r.choice(["int", "double"]), o), self.T(v, o)]
         if self.ts:
@@ -412,10 +435,18 @@ class Gen:
                     prefix.append(self.T("async", owner))
             elif r.random() < 0.2:
                 prefix.append(self.T("static", owner))
-            if "return_types" in self.F or True:
+            if "rich_types" in self.F and r.random() < 0.25:
+                self.use("rich_types")
+                rich = {"C": ["const char *", "struct node *", "unsigned long", "static inline int"],
+                        "C++": ["std::string", "const Box &", "std::vector < int >", "virtual int", "template < typename T > T"],
+                        "C#": ["Task < int >", "int ?", "string [ ]", "List < string >", "override int", "System.IO.Stream"],
+                        "Java": ["List < String >", "int [ ]", "java.util.Map < String , Integer >", "synchronized int", "final String", "< T > T"]}[lang]
+                prefix += self.words(r.choice(rich), owner)
+            else:
                 prefix.append(self.T(r.choice(TYPES[lang]), owner))
             if lang == "C++" and not in_class and owner is None and self.on("qualified", 0.15):
                 # Pygments lexes 'Klass::name' in a definition as ONE Name.Function token: that is the function's name
+                f.qual_prefix = "Klass::"
                 f.name = "Klass::" + f.name
                 name.text = f.name
             head = [name]
@@ -426,11 +457,13 @@ class Gen:
         if form == "arrow":
             tail = [self.T("=>", o)]
         elif self.ts and self.on("return_types", 0.4):
-            tail = [self.T(":", o, glue=True), self.T(r.choice(["number", "void", "string"]), o)]
+            tail = [self.T(":", o, glue=True)] + self.words(r.choice(["number", "void", "string", "number [ ]", "Promise < number >",
+                                                                       "Map < string , number >", "string | null"]), o)
         elif lang == "Java" and self.on("throws", 0.25):
-            tail = [self.T("throws", o, kind="kw"), self.T("Exception", o)]
-            if r.random() < 0.4:
-                tail += [self.T(",", o, glue=True), self.T("IOException", o)]
+            names = ["Exception", "IOException", "java.io.IOException", "java.util.concurrent.TimeoutException", "MyError", "pkg.Inner.Err"]
+            tail = [self.T("throws", o, kind="kw"), self.T(r.choice(names), o)]
+            while r.random() < 0.4:
+                tail += [self.T(",", o, glue=True), self.T(r.choice(names), o)]
         oneline = self.on("oneline", 0.08)
         if groups and not oneline and self.on("multiline_header", 0.2):
             # parameters on their own lines (the Pygments C and C++ lexers do not recognise comments inside a
@@ -832,6 +865,11 @@ class Gen:
         groups = []
         for i in range(r.randint(0, 3)):
             v = "p" + str(i) + r.choice("abc")
+            if "rich_params" in self.F and r.random() < 0.25:
+                self.use("rich_params")
+                shapes = [s for s in self.RICH_PARAMS["Python"] if not s.startswith("*")]
+                groups.append(self.words(r.choice(shapes).replace("{v}", v), o))
+                continue
             t = [self.T(v, o)]
             if r.random() < 0.3:
                 t += [self.T(":", o, glue=True), self.T(r.choice(["int", "str", "float"]), o)]
@@ -870,7 +908,7 @@ class Gen:
         rp = self.T(")", o, kind="punct", glue=True)
         tail = []
         if self.on("return_types", 0.3):
-            tail = [self.T("->", o), self.T(r.choice(["int", "str", "None"]), o)]
+            tail = [self.T("->", o)] + self.words(r.choice(["int", "str", "None", "list [ int ]", "dict [ str , int ]", "\"Klass\"", "tuple [ int , ... ]"]), o)
         tail.append(self.T(":", o, glue=True))
         if groups and self.on("multiline_header", 0.2):
             self.emit(head + [lp], indent)
@@ -1080,7 +1118,7 @@ class Gen:
                 end = (last.line + nl, len(last.text) - last.text.rfind("\n"))
             else:
                 end = (last.line, last.col + len(last.text))
-            truth.append(Truth(f.name, (f.first.line, f.first.col), end, len(own_lines.get(f.fid, ())), f.depth, f.parent))
+            truth.append(Truth(f.name, (f.first.line, f.first.col), end, len(own_lines.get(f.fid, ())), f.depth, f.parent, f.qual_prefix))
         return Program(self.lang, text, truth, tuple(sorted(self.F)), dict(self.used), all_tokens, self.seed)
 
 
